@@ -86,6 +86,9 @@ class LoopSpec:
         self.index = index  # name of a ghost index for while loops (optional)
 
 
+UNROLL = 3
+
+
 class Engine:
     def __init__(self, contracts, attr_kind=None):
         self.contracts = contracts  # qualname -> Contract
@@ -96,6 +99,7 @@ class Engine:
         self.attr_kind = attr_kind or default_attr_kind
         self.stats = {"paths": 0, "forks": 0, "merges": 0}
         self.bases = None
+        self.incomplete = []  # loops explored only up to UNROLL iterations (no invariant available)
 
     # ------------------------------------------------------------------ obligations
     def oblige(self, name, st, goal, kind="post", site=None, observe=None, note=None):
@@ -399,7 +403,7 @@ class Engine:
                 continue
             seq = self.concrete_iter(s, it)
             if seq is not None:
-                outs += self.unroll_for(node, s, seq, k)
+                outs += self.unroll_concrete(node, s, seq, k)
             else:
                 outs += self.cut_for(node, s, it, k)
             self.loop_ord = k + 1 + nloops_inside
@@ -419,7 +423,7 @@ class Engine:
                 return list(range(lo, hi))
         return None
 
-    def unroll_for(self, node, st, seq, k):
+    def unroll_concrete(self, node, st, seq, k):
         live = [st]
         done = []
         for x in seq:
@@ -460,8 +464,6 @@ class Engine:
 
     def cut_for(self, node, st, it, k):
         spec = self.loop_spec(k)
-        if spec is None:
-            raise EngineUnsupported(f"loop #{k} of {self.cur.qualname} has a symbolic bound and no invariant")
         if isinstance(it, SRange):
             lo, hi = int_term(it.lo), int_term(it.hi)
             elem = lambda s, i: SInt(i)
@@ -473,6 +475,8 @@ class Engine:
             elem = lambda s, i: SInt(byte_at(s, v.arr, v.lo + i))
         else:
             raise EngineUnsupported(f"iteration over {it!r}")
+        if spec is None or spec.invariant is None:
+            return self.unroll_for(node, st, it, k, lo, hi, elem)
         outs = []
         # init: invariant holds for index lo
         for nm, g in spec.invariant(self, st, lo):
@@ -532,7 +536,8 @@ class Engine:
                     outs.append((s1, None))
                     continue
                 if spec is None:
-                    raise EngineUnsupported(f"while loop #{k} of {self.cur.qualname} has no invariant")
+                    outs += self.unroll_while(node, s1, k)
+                    continue
                 for nm, g in spec.invariant(self, s1, None):
                     self.oblige(f"{self.cur.qualname}.loop{k}.inv_init.{nm}", s1, g, kind="inv", site=node.lineno)
                 head = s1.fork()
@@ -562,6 +567,63 @@ class Engine:
                             else:
                                 outs.append((s4, c4))
         self.loop_ord = k + 1 + nloops_inside
+        return outs
+
+    def unroll_while(self, node, st, k):
+        """No invariant for this loop (e.g. the code was edited): explore up to UNROLL
+        iterations.  Refutations found this way are real paths; a proof is not claimed."""
+        self.incomplete.append(f"{self.cur.qualname} while-loop #{k}: unrolled {UNROLL} iterations, no invariant")
+        outs = []
+        live = [st]  # states whose test was true
+        for it in range(UNROLL):
+            nxt = []
+            for s in live:
+                self.loop_ord = k + 1
+                for s4, c4 in self.exec_block(node.body, s):
+                    if c4 is None or isinstance(c4, Continue):
+                        for s5, c5 in self.ev(node.test, s4):
+                            if isinstance(c5, RaiseExc):
+                                outs.append((s5, c5))
+                                continue
+                            for s6, b in self.branch(s5, truth(s5, c5)):
+                                if b:
+                                    nxt.append(s6)
+                                else:
+                                    outs.append((s6, None))
+                    elif isinstance(c4, Break):
+                        outs.append((s4, None))
+                    else:
+                        outs.append((s4, c4))
+            live = nxt
+        return outs
+
+    def unroll_for(self, node, st, it, k, lo, hi, elem):
+        self.incomplete.append(f"{self.cur.qualname} for-loop #{k}: unrolled {UNROLL} iterations, no invariant")
+        outs = []
+        live = [st]
+        for j in range(UNROLL + 1):
+            nxt = []
+            for s in live:
+                idx = z3.simplify(lo + j)
+                for s1, b in self.branch(s, idx < hi):
+                    if not b:
+                        outs.append((s1, None))
+                        continue
+                    if j == UNROLL:
+                        continue
+                    self.loop_ord = k + 1
+                    for s2, c in self.assign(node.target, elem(s1, idx), s1):
+                        if c is not None:
+                            outs.append((s2, c))
+                            continue
+                        for s3, c3 in self.exec_block(node.body, s2):
+                            if c3 is None or isinstance(c3, Continue):
+                                nxt.append(s3)
+                            elif isinstance(c3, Break):
+                                outs.append((s3, None))
+                            else:
+                                outs.append((s3, c3))
+            live = nxt
         return outs
 
     def back_edge(self, node, spec, k, st):
@@ -740,7 +802,8 @@ class Engine:
                 return [format(c, spec)]
             if spec in ("", "d"):
                 spec = "d"
-            if spec.lstrip("0") not in ("d", "2d", "3d"):
+            import re as _re
+            if not _re.fullmatch(r"0?\d*d", spec):
                 raise EngineUnsupported(f"format spec {spec!r} on a symbolic int")
             return [Fmt(spec, v)]
         if isinstance(v, SStr) and conv == -1 and spec == "":
